@@ -43,6 +43,21 @@ def gen_grammar(rng, big_reps=False):
             alias = ('al%d' % rng.randint(0, 2)) if (not n.startswith('_') and rng.random() < 0.2) else None
             alts.append((e, alias))
         rules.append((n, mod, alts))
+    if rng.random() < 0.2:
+        # one and the same item (a terminal, a group with alternatives, a rule) under `~n..m` in one place and under `+`/`*`/`?` in another: every
+        # operator has its own helper rules, whatever was compiled first
+        X = rng.choice([('t', 'A'), ('alt', [('seq', [('t', 'A')]), ('seq', [('t', 'B')])]), ('alt', [('seq', [('t', 'A')]), ('seq', [('t', 'B'), ('t', 'C')])]),
+                        ('alt', [('seq', [('t', 'A')]), ('seq', [('t', 'B')]), ('seq', [('t', 'C')])])])
+        lo = rng.choice([1, 2, 3, 5, 6, 8]); hi = lo + rng.choice([0, 0, 1, 3])
+        rep = ('rep', X, lo, hi); other = (rng.choice(['plus', 'star', 'plus', 'opt']), X)
+        first, second = (rep, other) if rng.random() < 0.5 else (other, rep)
+        if len(rules) > 1 and rng.random() < 0.5:
+            n0, mod0, alts0 = rules[0]; n1, mod1, alts1 = rules[1]
+            rules[0] = (n0, mod0, alts0 + [(('seq', [first, ('lit', '"x"')]), None)])
+            rules[1] = (n1, mod1, alts1 + [(('seq', [('lit', '"x"'), second]), None)])
+        else:
+            n0, mod0, alts0 = rules[0]
+            rules[0] = (n0, mod0, alts0 + [(('seq', [first, ('lit', '"x"'), second]), None)])
     return rules
 
 
